@@ -11,6 +11,7 @@
 //	pub{t,m,n,to}                      start Topic.Publish(ctx, m, WithReadiness(MinTopicSize(n))) in a goroutine; to = timeout of ctx in ms (0: none)
 //	cancelpub{m}                       cancel the context of publish m
 //	peers{t,n}                         make exactly the first n fake peers subscribers of t (connecting them when needed)
+//	graft{p,t} ...                     every world action (a GRAFT pushes the mesh beyond D)
 //	found{p,subs}                      a peer the node has dialled opens its stream and announces subs
 //	elapse{s}                          s virtual seconds pass
 //	shutdown                           the context of the node is cancelled
@@ -22,7 +23,7 @@
 //
 //	"x": {"t0": stimulus instant, "dv": [mock / driver events in real order, the stimulus marked by {"k":"stim"}],
 //	      "census": {goroutines of the discovery pipeline by role}, "alive": [advertiser ids whose context is live],
-//	      "en": {topic: [EnoughPeers(topic, 0..4)]}, "pend": [publishes not yet returned]}
+//	      "pend": [publishes not yet returned]}   (sample events carry {topic: [EnoughPeers(topic, 0..7)]})
 //
 // The driver never judges; spec/discovery/DiscoveryTrace.tla does.
 package x06
@@ -65,7 +66,7 @@ const (
 	holdTail = 3 * time.Millisecond
 	optLimit = 7
 	optTTL   = 77 * time.Second
-	maxN     = 4 // EnoughPeers is sampled for suggested sizes 0..maxN
+	maxN     = 7 // EnoughPeers is sampled for suggested sizes 0..maxN
 )
 
 var topics = []string{"t1", "t2"}
@@ -637,7 +638,15 @@ func runScenario(t *testing.T, out *vh.Out, s scenario) {
 		// every fake peer exists (unconnected) from the start so that the service can return it before it has ever connected
 		for i := 1; i <= npeers; i++ {
 			name := vh.Sprintf("p%d", i)
-			f := hnet.NewFakePeer(w.Net.Take(), name, d.proto, w.H.Host)
+			proto := d.proto
+			if proto == "mixed" {
+				// odd peers speak the router's own protocol, even peers floodsub
+				proto = map[string]string{"gossipsub": "v11", "floodsub": "flood", "randomsub": "random"}[router]
+				if i%2 == 0 {
+					proto = "flood"
+				}
+			}
+			f := hnet.NewFakePeer(w.Net.Take(), name, proto, w.H.Host)
 			w.Names.AddPeer(f.ID(), name)
 			w.Fakes[name] = f
 		}
